@@ -420,7 +420,10 @@ func (n *Nodes) updateBackends(ctx context.Context, ourBackends []string) {
 	}
 	for _, newBackend := range addBackends {
 		peer := n.lmd.PeerMap[newBackend]
-		peer.Start(ctx)
+		// after a reload the node accessor is new, but the peers it gets assigned may be running already
+		if peer.paused.Load() {
+			peer.Start(ctx)
+		}
 	}
 	n.lmd.PeerMapLock.RUnlock()
 }
